@@ -2,6 +2,20 @@
 annotations`` - the parser needs evaluated annotations (see finding F-C16)."""
 
 
+from typing import Annotated
+
+
+class _Between:
+    """Metadata for typing.Annotated that defines __eq__ without __hash__ (like an ordinary eq-dataclass): unhashable."""
+    __hash__ = None
+
+    def __init__(self, lo, hi):
+        self.lo, self.hi = lo, hi
+
+    def __eq__(self, other):
+        return isinstance(other, _Between) and (self.lo, self.hi) == (other.lo, other.hi)
+
+
 def extended_class(cls, variant=0):
     """A subclass adding public members with properly evaluated annotations (C16).
     variant 1 is a DIFFERENT class with the same __module__/__qualname__/__name__ but other members."""
@@ -51,6 +65,10 @@ def extended_class(cls, variant=0):
         @property
         def bare_prop(self) -> int:
             return 3
+
+        def throttle(self, percent: Annotated[int, _Between(0, 100)] = 50) -> int:
+            """A parameter whose annotation cannot be hashed."""
+            return percent
 
         def make_report(self, depth: int = 1) -> "Report":  # noqa: F821 (a forward reference only type checkers resolve)
             """Returns something whose type only the type checker knows."""
